@@ -163,6 +163,14 @@ class Run:
                 fails += r["spec"].split()
             if r["impl"] is not None and r["impl"].startswith("BADCASE"):
                 fails.append("harness:badcase")
+            # "the observation / history could not be understood" is a broken correspondence (a construct the harness does not
+            # know, e.g. a new shared variable), not a failing input of the property: reported with no-failing-input-found
+            tie_level = [f for f in fails if "unparsable" in f or f == "obs:unknown_event" or f.startswith("harness:")]
+            if tie_level and not r.get("crash"):
+                fails = [f for f in fails if f not in tie_level]
+                r["tie_fails"] = tie_level
+                if r not in out["diffs"]:
+                    out["diffs"].append(r)
             unmatched = []
             for f in fails:
                 hit = [k for s, k in open_sigs if fnmatch.fnmatchcase(f, s)]
@@ -173,7 +181,7 @@ class Run:
             if unmatched:
                 r["fails"] = unmatched
                 out["new"].append(r)
-            if r["impl"] is not None and r["model"] is not None and r["impl"] != r["model"] and not r.get("crash"):
+            if r["impl"] is not None and r["model"] is not None and r["impl"] != r["model"] and not r.get("crash") and r not in out["diffs"]:
                 out["diffs"].append(r)
             if r["mspec"] not in (None, "ok") and r["spec"] == "ok":
                 out["model_spec_only"].append(r)
